@@ -376,7 +376,9 @@ Definition step (c : cfg) (s : st) (o : op) (e : env) : st * out :=
                       | Unknown => (s, OUndecided)
                       | Yes => if e_tb e <=? e_clk e then (s0, OErr Older) else (s, OClock 7)
                       | No =>
-                          if negb (t0 <=? e_clk e) then (s, OClock 7)
+                          (* the explicit timestamp is folded into the shard -- except 2^64-1, which
+                             VersionClock::observe skips *)
+                          if negb ((t0 =? U64M) || (t0 <=? e_clk e)) then (s, OClock 7)
                           else match reserve c (mem s0) (rsize c k (bytes_of_i64 delta)) with
                           | None => (s0, OErr OutOfMemory)
                           | Some m' =>
